@@ -1,5 +1,9 @@
 import WfModel.Drv.RangeSet
 import WfModel.Drv.TyEnc
+import WfModel.Drv.Scheme
+import WfModel.Drv.Ctx
+import WfModel.Drv.Search
+import WfModel.Drv.Wild
 import WfModel.Drv.Core
 /-!
 Line-protocol driver: one request per line on stdin, one answer per line on stdout.
@@ -9,7 +13,8 @@ open WfModel
 
 /-- stateless handlers (one self-contained request per line) -/
 def handlers : List (List String → Option String) :=
-  [ Drv.RangeSet.handle, Drv.TyEnc.handle ]
+  [ Drv.RangeSet.handle, Drv.TyEnc.handle, Drv.Scheme.handle, Drv.Ctx.handle,
+    Drv.Search.handle, Drv.Wild.handle ]
 
 def dispatch (st : Drv.Core.St) (ws : List String) : Drv.Core.St × String :=
   match Drv.Core.step st ws with
